@@ -623,3 +623,115 @@ Proof.
   exists p, gs. split; [exact Hr|]. split; [exact HP|].
   apply (prun_assets_ok ops pinit p (prun_of_prun_g _ _ _ _ _ Hr)). reflexivity.
 Qed.
+
+(* ==================================================================================== *)
+(* Freshness: is the result of one request delivered to the windows more than once?
+   Trackers maintained from the inputs: [cons] = ids delivered so far (BandOracle.pconsumed),
+   [acked] = ids acknowledged so far.  Band's request ids are unique and non-zero: [ack_ok]. *)
+Definition packed (acked : list Z) (o : pop) : list Z :=
+  match o with Ack r => r :: acked | _ => acked end.
+Definition ack_ok (acked : list Z) (o : pop) : Prop :=
+  match o with Ack r => r <> 0 /\ ~ In r acked | _ => True end.
+Fixpoint acks_ok (acked : list Z) (ops : list pop) : Prop :=
+  match ops with [] => True | o :: r => ack_ok acked o /\ acks_ok (packed acked o) r end.
+
+Fixpoint prun_f (p : pstate) (cons acked : list Z) (ops : list pop)
+  : outcome (pstate * list Z * list Z) :=
+  match ops with
+  | [] => Ok (p, cons, acked)
+  | o :: r => obind (pstep p o) (fun p' => prun_f p' (pconsumed p cons o) (packed acked o) r)
+  end.
+
+Definition FInv (p : pstate) (cons acked : list Z) : Prop :=
+  (zmem (b_last (p_band p)) cons = true ->
+     b_temp (p_band p) = b_last (p_band p) \/ b_temp (p_band p) = 0) /\
+  (forall r, zmem r cons = true -> r = 0 \/ In r acked) /\
+  (b_last (p_band p) = 0 \/ In (b_last (p_band p)) acked).
+
+Lemma delivered_some h b r : delivered_id h b = Some r ->
+  r = b_last b /\ b_valid b = true /\ b_block b <> 0 /\ h mod 20 = 0.
+Proof.
+  unfold delivered_id. destruct (b_valid b); cbn [andb]; [|discriminate].
+  destruct (Z.eqb_spec (b_block b) 0); cbn [negb andb]; [discriminate|].
+  destruct (Z.eqb_spec (h mod 20) 0); [|discriminate].
+  destruct (lookup_result _ _); [discriminate|]. intros H; injection H as <-. auto.
+Qed.
+
+(* a delivering check is an answered check of the second branch *)
+Lemma delivering_check h b r : delivered_id h (band_begin_block h b) = Some r ->
+  r = b_last b /\ b_check b = true /\ b_last b <> b_temp b /\ b_block b <> 0 /\ h mod 20 = 0 /\
+  b_temp (band_begin_block h b) = b_last b.
+Proof.
+  intros H. destruct (delivered_some _ _ _ H) as (Hr & Hv & Hb & Hm).
+  rewrite band_bb_last in Hr. rewrite band_bb_block in Hb.
+  unfold band_begin_block in Hv |- *.
+  destruct (Z.eqb_spec (b_block b) 0); [contradiction|]. rewrite Hm in *. cbn [Z.eqb] in *.
+  destruct (b_check b); cbn [negb b_valid b_temp] in *; [|discriminate].
+  destruct (Z.eqb_spec (b_last b) (b_temp b)); cbn [negb] in Hv; [discriminate|]. repeat split; auto.
+Qed.
+
+Lemma zmem_cons x y l : zmem x (y :: l) = (x =? y) || zmem x l.
+Proof. reflexivity. Qed.
+
+Lemma pstep_finv p o p' cons acked :
+  pstep p o = Ok p' -> ack_ok acked o -> FInv p cons acked ->
+  FInv p' (pconsumed p cons o) (packed acked o).
+Proof.
+  intros Hs Hack (HK & H1 & H2). destruct o as [h|r|r rates|h m|req]; cbn [pstep pconsumed packed] in *.
+  - (* Block *)
+    unfold block_step in Hs. destruct (begin_block _ _ _) as [[s' d]| |]; try discriminate.
+    injection Hs as <-. unfold FInv. cbn [p_band set_dbool b_last b_temp]. rewrite band_bb_last.
+    destruct (delivered_id h (band_begin_block h (p_band p))) as [r|] eqn:Ed; cbn [consume].
+    + destruct (delivering_check _ _ _ Ed) as (Hr & _ & _ & _ & _ & Ht). subst r.
+      split; [intros _; left; exact Ht|]. split; [|exact H2].
+      intros r. rewrite zmem_cons. intros Hz. apply orb_prop in Hz. destruct Hz as [Hz|Hz].
+      * apply Z.eqb_eq in Hz. subst r. exact H2.
+      * apply H1. exact Hz.
+    + split; [|split; assumption]. intros Hz. specialize (HK Hz).
+      unfold band_begin_block. destruct (b_block (p_band p) =? 0); [exact HK|].
+      destruct (h mod 20 =? 0); [|exact HK]. destruct (b_check (p_band p)); cbn [b_temp]; auto.
+  - (* Ack: the id is new, so it has not been delivered *)
+    injection Hs as <-. destruct Hack as [Hr0 Hnew]. unfold FInv. cbn [p_band set_last b_last b_temp].
+    split; [|split].
+    + intros Hz. destruct (H1 _ Hz) as [|Hin]; [contradiction|]. contradiction.
+    + intros r' Hz. destruct (H1 _ Hz) as [|Hin]; [left; assumption|right; right; exact Hin].
+    + right. left. reflexivity.
+  - injection Hs as <-. unfold FInv. cbn [p_band add_result b_last b_temp]. auto.
+  - destruct (f_n m =? 0); injection Hs as <-; unfold FInv; cbn [p_band add_fetch_price_records b_last b_temp]; auto.
+  - injection Hs as <-. unfold FInv. cbn [p_band]. destruct req; cbn [set_check b_last b_temp]; auto.
+Qed.
+
+Lemma finv_init : FInv pinit [] [].
+Proof. unfold FInv. cbn. split; [discriminate|]. split; [discriminate|]. left; reflexivity. Qed.
+
+Lemma prun_f_inv ops : forall p cons acked p' cons' acked',
+  acks_ok acked ops -> FInv p cons acked ->
+  prun_f p cons acked ops = Ok (p', cons', acked') -> FInv p' cons' acked'.
+Proof.
+  induction ops as [|o ops IH]; intros p cons acked p' cons' acked' Ha HF Hr; cbn [prun_f acks_ok] in *.
+  - injection Hr as <- <- <-. exact HF.
+  - destruct Ha as [Ha0 Ha]. destruct (pstep p o) as [p1| |] eqn:Hs; cbn [obind] in Hr; try discriminate.
+    apply (IH _ _ _ _ _ _ Ha (pstep_finv _ _ _ _ _ Hs Ha0 HF) Hr).
+Qed.
+
+(* a result is delivered a second time only by the check that follows a "first check" *)
+Theorem redelivery_only_after_reset p cons acked h r :
+  FInv p cons acked ->
+  delivered_id h (band_begin_block h (p_band p)) = Some r -> zmem r cons = true ->
+  b_temp (p_band p) = 0 /\ b_check (p_band p) = true.
+Proof.
+  intros (HK & _ & _) Hd Hz.
+  destruct (delivering_check _ _ _ Hd) as (Hr & Hc & Hne & _). subst r.
+  destruct (HK Hz) as [Ht|Ht]; [congruence|]. split; assumption.
+Qed.
+
+Theorem fresh_outside_kf p cons acked h :
+  FInv p cons acked -> kf_C17_4 p cons (Block h) = false ->
+  holds_C17_fresh cons (delivered_id h (band_begin_block h (p_band p))) = true.
+Proof.
+  intros HF Hk. unfold kf_C17_4 in Hk.
+  destruct (delivered_id h (band_begin_block h (p_band p))) as [r|] eqn:Ed; cbn [holds_C17_fresh]; [|reflexivity].
+  destruct (zmem r cons) eqn:Ez; [|reflexivity].
+  destruct (redelivery_only_after_reset p cons acked h r HF Ed Ez) as [Ht _].
+  rewrite Ht in Hk. cbn in Hk. discriminate.
+Qed.
